@@ -24,7 +24,7 @@ META = dict(
     bounds=dict(value='any integer (discrete) / any real (continuous)', templates='hand-written DSG templates (pools/dsg.py), '
                 '<= 6 design variables, <= 64 valid designs', sequences='fix; fix,decode*,free; fix,free,fix,free; fix v1,fix v2,free (same variable); fix a,fix b,free,free in '
                 'both orders (<= 4 operations)'),
-    outside=['graphs other than the templates', 'the fast selection-choice encoder', 'statistics tables (get_statistics)',
+    outside=['graphs other than the templates', 'the fast selection-choice encoder', 'statistics other than n_valid / n_declared / n_discrete of the two total rows',
              'continuous variables: accept/reject for all reals and disappearance from des_vars are decided; decodes after '
              'fixing use one representative value (float() concretises it)'],
     stubs=['EncoderSelector.get_best_assignment_manager -> default lazy encoder', 'formatting of the ValueError message in '
@@ -115,7 +115,22 @@ def observe(gp, decode_rows=None):
             elif d != first:
                 first = ('create=True', first, 'create=False', d)
         dec.append(first)
-    return dict(dvs=dvs, rows=rows, acts=acts, n_valid=int(n_valid), decodes=dec, full=full)
+    # statistics table: the "total-design-problem" row describes the restricted problem, "total-design-space" the free one
+    stats = None
+    try:
+        df = gp.get_statistics()
+        stats = dict(problem=[int(df.loc['total-design-problem', c]) for c in ('n_valid', 'n_declared', 'n_discrete')],
+                     space=[int(df.loc['total-design-space', c]) for c in ('n_valid', 'n_declared', 'n_discrete')])
+        n_decl = 1
+        for d in gp.des_vars:
+            if d.is_discrete:
+                n_decl *= d.n_opts
+        want = [len(rows), n_decl, len([d for d in gp.des_vars if d.is_discrete])]
+        if stats['problem'] != want:
+            stats['mismatch'] = dict(table=stats['problem'], expected=want)
+    except Exception as e:  # noqa
+        stats = dict(error=f'{type(e).__name__}: {e}')
+    return dict(dvs=dvs, rows=rows, acts=acts, n_valid=int(n_valid), decodes=dec, full=full, stats=stats)
 
 
 def _drop(t, k):
@@ -158,6 +173,13 @@ def check_restriction(res, name, fixed, obs_fixed, obs0, cfg, inputs):
               'every restricted design is an original design with that value or inactive')
     else:
         res['discharged'] += 1
+    res['obligations'] += 1
+    st = obs_fixed.get('stats') or {}
+    if 'mismatch' in st or 'error' in st or st.get('space') != (obs0.get('stats') or {}).get('space'):
+        _viol(res, 'fix', dict(kind='statistics', **sig), cfg, inputs, dict(stats=st, free=(obs0.get('stats') or {}).get('space')),
+              'statistics describe the restricted problem (total-design-problem) and the free one (total-design-space)')
+    else:
+        res['discharged'] += 1
     if obs_fixed['n_valid'] != len(obs_fixed['rows']):
         _viol(res, 'fix', dict(kind='count', **sig), cfg, inputs, dict(n_valid=obs_fixed['n_valid'], rows=len(obs_fixed['rows'])), 'count == rows')
     else:
@@ -173,7 +195,7 @@ def check_restriction(res, name, fixed, obs_fixed, obs0, cfg, inputs):
 
 def check_same(res, name, what, obs, ref, cfg, inputs):
     res['obligations'] += 1
-    diffs = [k for k in ('dvs', 'rows', 'acts', 'n_valid', 'decodes', 'full') if obs[k] != ref[k]]
+    diffs = [k for k in ('dvs', 'rows', 'acts', 'n_valid', 'decodes', 'full', 'stats') if obs[k] != ref[k]]
     if diffs:
         ex = {}
         for k in diffs[:2]:
